@@ -8,7 +8,7 @@ package compiler
 // package-level IR constants / runtime function handles: assigned once during set-up, never afterwards
 immutable g:compiler.zero g:compiler.ddp_runtime_error_irfun g:compiler.ddpint
 // the AST is not rewritten during code generation
-immutable ast.BinaryExpr ast.Indexing ast.UnaryExpr ast.TernaryExpr ast.Module.Ast ast.Ast.Faulty compiler.compiler.ddpModule
+immutable ast.BinaryExpr ast.Indexing ast.UnaryExpr ast.TernaryExpr ast.AssignStmt ast.Module.Ast ast.Ast.Faulty compiler.compiler.ddpModule
 // the compiler's type descriptors and IR constants are created once during set-up
 immutable compiler.compiler.ddpinttyp compiler.compiler.ddpfloattyp compiler.compiler.ddpbytetyp compiler.compiler.ddpbooltyp compiler.compiler.ddpchartyp
 immutable g:compiler.zerof g:compiler.all_ones g:compiler.all_ones8 g:compiler.ddpfloat g:compiler.ddpbyte g:compiler.ddpbool g:compiler.ddpchar g:compiler.zero8
@@ -169,6 +169,18 @@ func (*compiler).VisitTernaryExpr [C02]
   ensures c.latestReturnType == descr(c, 4)
   ensures ir.irty(c.latestReturn) == 4
   replay - replay_templates/c02_ternary.sh - : op = e.Operator ; l = tyClassOf(e.Lhs) ; m = tyClassOf(e.Mid) ; r = tyClassOf(e.Rhs)
+
+// --- assignment: a value of one numeric type assigned to a target of another numeric type (also through type aliases)
+//     is converted to the target's type before it is stored ---
+func (*compiler).VisitAssignStmt [C02]
+  cases tyClassOf(s.Rhs) in {1, 2, 3}
+  cases ddptypes.clsOf(s.VarType) in {1, 2, 3}
+  requires s != nil
+  // the checker's annotations are consistent with the class of the right-hand side
+  assume wfCompiler(c) && tyClassOf(s.Rhs) == ddptypes.clsOf(s.RhsType)
+  nopanic
+  callsite claimOrCopy requires lhsTyp == descr(c, ddptypes.clsOf(s.VarType)) ==>
+             arg3 == lhsTyp && ir.irty(arg2) == irOfClass(ddptypes.clsOf(s.VarType))
 
 // ================= C07: a faulty module is never handed to the code generator =================
 func newCompiler
